@@ -163,7 +163,18 @@ def main():
                              "demo without patch: pass; with patch: fail (%s)" % demo_cmd,
                              "baseline suite with patch: all 1304 stable tests pass" if not a.no_suite else "suite not re-run"]
         else:
-            sh("git apply %s" % patch, cwd=wt)
+            rc, out = sh("git apply %s" % patch, cwd=wt)
+            if rc != 0:
+                print("patch does not apply to the current tree:", out)
+                return 2
+            placed = place_demo()
+            rc1, out1 = sh(demo_cmd, cwd=wt, env=goenv(), timeout=1200)
+            for f in placed:
+                os.remove(f)
+            print("demo with patch on the current tree: rc=%d" % rc1)
+            if rc1 == 0:
+                print("STALE: the mutant no longer breaks its demo on the current tree")
+                return 4
         # run the checks
         det = {}
         for pid in ([] if a.no_check else (a.props.split(",") if a.props else [a.pid])):
